@@ -18,8 +18,11 @@ BUILD = os.path.join(VERIF, "_build")
 COQ = os.path.join(VERIF, "coq")
 GEN = os.path.join(COQ, "gen")
 HARNESS_DIR = os.path.join(VERIF, "harness")
-TARGET = os.path.join(BUILD, "target")
-CLI_TARGET = os.path.join(BUILD, "cli")
+# cargo decides freshness of path packages by source mtimes under one target dir, so a scratch
+# tree (VERIF_REPO) must never share build directories with /repo
+_SFX = "" if REPO == "/repo" else "-" + hashlib.sha1(REPO.encode()).hexdigest()[:8]
+TARGET = os.path.join(BUILD, "target" + _SFX)
+CLI_TARGET = os.path.join(BUILD, "cli" + _SFX)
 NCPU = os.cpu_count() or 4
 
 ENV = dict(os.environ)
@@ -302,7 +305,9 @@ def print_assumptions(pid, timeout=1200):
             cur = []
             blocks.append(cur)
         elif cur is not None:
-            m = re.match(r"^(\S+)\s*:", line)
+            # an axiom is printed as `name : type` or, for long types, `name` alone on one line
+            # followed by an indented `  : type`
+            m = re.match(r"^([A-Za-z_][\w.']*)\s*(:|$)", line)
             if m and not line.startswith(" "):
                 cur.append(m.group(1))
             elif line.strip() == "":
